@@ -424,6 +424,72 @@ def small_random_jobs(rng, n):
     return jobs
 
 
+# ---------------------------------------------------------------- input-variation matrix (layout x dtype)
+DTYPES = ["int8", "uint8", "int16", "uint16", "int32", "uint32", "int64", "uint64", "float32", "float64"]
+LAYOUTS = ["C", "F", "T", "S", "R"]        # C, Fortran, transposed view, strided view, reversed view
+LAYOUT_CLASS = {"C": "C", "F": "F", "T": "F", "S": "A", "R": "A"}     # what numba specialises on
+
+
+def moderate_valmap(dtype):
+    if dtype.startswith("float"):
+        return {"0": "0.5", "1": "-2.25", "2": "7.0"}
+    if dtype.startswith("u"):
+        return {"0": "0", "1": "7", "2": "3"}
+    return {"0": "-3", "1": "5", "2": "0"}
+
+
+def extreme_valmap(dtype):
+    """extreme values of the dtype, pairwise far apart (more than any isclose tolerance) in exact arithmetic"""
+    if dtype == "float32":
+        return {"0": "-3e38", "1": "16777216.0", "2": "0.0"}
+    if dtype == "float64":
+        return {"0": "-1e300", "1": "16777217.0", "2": "0.1"}      # 16777217 and 0.1 are not float32 values
+    bits = int(dtype.lstrip("uint"))
+    if dtype.startswith("u"):
+        return {"0": "0", "1": str(2 ** bits - 1), "2": str(2 ** (bits - 1))}
+    return {"0": str(-2 ** (bits - 1)), "1": str(2 ** (bits - 1) - 1), "2": "0"}
+
+
+def variation_groups(rng, pool, per_combo, extreme_per_dtype, make):
+    """{signature: [jobs]}: a seeded sample of `pool` (one list of plain jobs with codes 0..2 per family; first a
+    family is drawn, then a job of it) for every dtype x layout, with
+    moderate values, plus a few with the extreme values of each dtype.  `make(job, dtype, layout, valmap, tag)`
+    builds the concrete job.  The result must not depend on layout or dtype."""
+    groups = {}
+    for dt in DTYPES:
+        for lay in LAYOUTS:
+            for _ in range(per_combo):
+                j = rng.choice(rng.choice(pool))
+                groups.setdefault((dt, LAYOUT_CLASS[lay]), []).append(
+                    make(j, dt, lay, moderate_valmap(dt), "vary_%s_%s_%s" % (dt, lay, j["tag"])))
+        for k in range(extreme_per_dtype):
+            j = rng.choice(rng.choice(pool))
+            lay = LAYOUTS[k % len(LAYOUTS)]
+            groups.setdefault((dt, LAYOUT_CLASS[lay]), []).append(
+                make(j, dt, lay, extreme_valmap(dt), "extreme_%s_%s_%s" % (dt, lay, j["tag"])))
+    return groups
+
+
+def interleave(groups, nproc, start, filler):
+    """core.run_jobs gives job i to process i % nproc.  Lay the groups out so that every signature is met (and
+    JIT-compiled) by one process only; `start` = number of jobs already in the list.  Returns the jobs to append
+    (with fillers, tag 'filler', where a process has nothing left)."""
+    queues = [[] for _ in range(nproc)]
+    for key in sorted(groups, key=lambda k: -len(groups[k])):
+        q = min(range(nproc), key=lambda i: len(queues[i]))
+        queues[q] += groups[key]
+    out = [dict(filler) for _ in range((-start) % nproc)]
+    for k in range(max(len(q) for q in queues)):
+        for q in queues:
+            out.append(q[k] if k < len(q) else dict(filler))
+    return out
+
+
+def regions_variant(j, dtype, layout, valmap, tag):
+    v = dict(j, dtype=dtype, layout=layout, valmap=valmap, tag=tag)
+    return v
+
+
 # ---------------------------------------------------------------- bookkeeping
 def has_nonrectangle(case):
     """count rule: some label class of the (accepted) result is not a full rectangle"""
@@ -443,7 +509,23 @@ def has_nonrectangle(case):
 STRIP = ("tag", "dtype", "name_out", "error", "job")
 
 
+def violation_key(c, cl):
+    """stable key of the failing class; the two ways integer extremes break _area_connectivity have their own"""
+    j = c["job"]
+    vm = j.get("valmap") or {}
+    dt = j.get("dtype", "float64")
+    if dt.startswith("int") and cl in ("component_split", "components_joined"):
+        lo = str(-2 ** (int(dt[3:]) - 1))
+        if lo in vm.values() and any(vm.get(str(v)) == lo for row in j["vals"] for v in row):
+            return "regions:signed-dtype-minimum-wraps-in-abs"
+    if dt in ("int64", "uint64") and cl in ("component_split", "components_joined") and vm:
+        if any(abs(int(x)) >= 2 ** 62 for x in vm.values()):
+            return "regions:64bit-difference-wraps"
+    return "regions:%s" % cl
+
+
 def judge_and_handle(ctx, cases, name, kind, parallel):
+    cases = [c for c in cases if c.get("tag") != "filler"]
     good = [c for c in cases if "error" not in c]
     for c in cases:
         if "error" in c:
@@ -462,7 +544,7 @@ def judge_and_handle(ctx, cases, name, kind, parallel):
             if has_nonrectangle(c):
                 ctx.nontrivial((c["n"], c["H"], c["W"], tuple(map(tuple, c["vals"]))))
         else:
-            ctx.violation("regions:%s" % cl, cl,
+            ctx.violation(violation_key(c, cl), cl,
                           {"job": c["job"], "observed": {k: c[k] for k in c if k not in ("base", "job")}},
                           "%s %dx%d n=%d dtype=%s" % (c["tag"], c["H"], c["W"], c["n"], c["dtype"]))
         dr = ctx.judge_extra.get(i)
@@ -515,7 +597,20 @@ def run(ctx):
     fjobs = (placement_jobs(rng, sizes) + hook_jobs() + multiarm_jobs(rng, ctx.pick(1500, 12000))
              + small_random_jobs(rng, ctx.pick(3000, 40000)))
     tjobs = fjobs + random_jobs(rng, ctx.pick(300, 4000), 10)
-    allcases = core.run_jobs("regions_worker", ejobs + tjobs, nproc=ctx.pick(8, 16))
+    # input-variation matrix: layout x dtype on a seeded sample of every family (same result expected)
+    nproc = ctx.pick(8, 16)
+    fam = {}
+    for j in fjobs:
+        fam.setdefault("_".join(j["tag"].split("_")[:2]), []).append(j)
+    for g in GENS:
+        fam[g.__name__] = [plain_job(sym(g(rng.randint(3, 8), rng.randint(3, 8), rng), rng.randrange(8)),
+                                     rng.choice([4, 8]), g.__name__) for _ in range(6)]
+    pool = [fam[k] for k in sorted(fam)]
+    groups = variation_groups(rng, pool, ctx.pick(6, 60), ctx.pick(3, 20), regions_variant)
+    vjobs = interleave(groups, nproc, len(ejobs) + len(tjobs), plain_job([[0]], 4, "filler", steps=0))
+    tjobs += vjobs
+    ctx.extra["variation_cases"] = sum(len(g) for g in groups.values())
+    allcases = core.run_jobs("regions_worker", ejobs + tjobs, nproc=nproc)
     # ---- R: the complete enumerated scope through the real regions()
     cases = allcases[:len(ejobs)]
     good = judge_and_handle(ctx, cases, "replay_all_rasters", "R", parallel=ctx.pick(1, 8))
